@@ -167,7 +167,9 @@ class BayesianNetwork(DAG):
 
         for affected_node in affected_nodes:
             node_cpd = self.get_cpds(node=affected_node)
-            if node_cpd:
+            # (a CPD that does not mention the node has nothing to marginalize; failing here
+            # used to leave the CPDs of the children handled so far modified)
+            if node_cpd and node in node_cpd.scope():
                 node_cpd.marginalize([node], inplace=True)
 
         node_cpd = self.get_cpds(node=node)
